@@ -1710,7 +1710,7 @@ fn gen_same_content(rng: &mut Rng, tier: &str) -> Value {
     // two or three writers of identical content (same or different keys, different entry points and flavours) at once
     let keys = vec!["a".to_string(), "b".to_string()];
     let vals = vec![json!({"seed": rng.next_u64() >> 1, "len": *rng.pick(&[0u64, 5, 4000, 1048577])})];
-    if rng.chance(1, 3) {
+    if rng.chance(1, if tier == "quick" { 6 } else { 3 }) {
         // one re-writer of content that is already stored against one reader of that address, under EVERY schedule
         // with at most two context switches: the stored copy must be readable at every instant
         let fw = flav(rng);
